@@ -291,11 +291,14 @@ def run(ctx):
     for fn in p.all_functions():
         for st in au.walk_stmts(fn.body):
             for c in au.walk_own(st):
-                if not (isinstance(c, ast.Call) and isinstance(c.func, ast.Name) and c.func.id == "define_restr" and len(c.args) >= 2):
+                if not (isinstance(c, ast.Call) and isinstance(c.func, ast.Name) and c.func.id == "define_restr"):
                     continue
-                letter = au.const_str(c.args[1])
+                a_take, a_type = au.arg_or_kw(c, 0, "my_take"), au.arg_or_kw(c, 1, "my_type")
+                if a_take is None or a_type is None:
+                    continue
+                letter = au.const_str(a_type)
                 org = ctx.origins(fn)
-                nodes = org.nodes(c.args[0], st)
+                nodes = org.nodes(a_take, st)
                 kinds = {x.attr for x in nodes if isinstance(x, ast.Attribute) and x.attr in ("max_take", "min_take")} | \
                     {x.id for x in nodes if isinstance(x, ast.Name) and x.id in ("max_take", "min_take")}
                 if len(kinds) != 1 or letter is None:
@@ -304,8 +307,8 @@ def run(ctx):
                 kind = next(iter(kinds))
                 # negated? a store  <arg>['values'] = -...  reaching the call
                 negated = False
-                if isinstance(c.args[0], ast.Name):
-                    for d in ctx.flow(fn).defs(c.args[0].id, st):
+                if isinstance(a_take, ast.Name):
+                    for d in ctx.flow(fn).defs(a_take.id, st):
                         for dd in [d] + list(d.prev):
                             if dd.kind == "store" and dd.value is not None and "values" in str(dd.index) and au.sign_of(dd.value) < 0:
                                 negated = True
